@@ -229,6 +229,15 @@ impl TlInForce {
         let twin = MergedTimeline::of(all.iter().map(build_a));
         TlInForce { desc: desc.clone(), more: more.to_vec(), twin: Twin::Many(twin), models: all.iter().map(ModelTl::new).collect(), start: None }
     }
+    /// a merged timeline blended from `from` (start_with reaches every component)
+    fn merged_from(desc: &TlDesc, more: &[TlDesc], from: &A) -> Self {
+        let mut t = Self::merged(desc, more);
+        if let Twin::Many(m) = &mut t.twin {
+            m.start_with(from);
+        }
+        t.start = Some(from.clone());
+        t
+    }
     fn parts(&self) -> impl Iterator<Item = &TlDesc> {
         std::iter::once(&self.desc).chain(self.more.iter())
     }
@@ -782,8 +791,32 @@ pub struct C19Case {
     /// timeline the selector replaces on its first frame) instead of `Animator::new()`
     #[serde(default)]
     pub ctor_timeline: Option<u8>,
+    /// key `.0 % 3` is registered with `MergedTimeline::of([tls[key], .1])` (a staggered pair: the
+    /// second part usually has another delay) instead of the plain timeline
+    #[serde(default)]
+    pub merged_key: Option<(u8, TlDesc)>,
     pub start: Vals,
     pub ops: Vec<SOp>,
+}
+
+impl C19Case {
+    fn extra_for(&self, k: usize) -> Option<&TlDesc> {
+        self.merged_key.as_ref().filter(|(m, _)| *m as usize % 3 == k).map(|(_, x)| x)
+    }
+    /// the timeline the selector installs for key k (< 3), blended from `from`
+    fn in_force(&self, k: usize, from: &A) -> TlInForce {
+        match self.extra_for(k) {
+            Some(x) => TlInForce::merged_from(&self.tls[k], std::slice::from_ref(x), from),
+            None => TlInForce::new(&self.tls[k], Some(from)),
+        }
+    }
+}
+
+fn add_keyed(sb: AnimationSelectorBuilder<K, A>, c: &C19Case, i: usize) -> AnimationSelectorBuilder<K, A> {
+    match c.extra_for(i) {
+        Some(x) => sb.add(KEYS[i], MergedTimeline::of([build_a(&c.tls[i]), build_a(x)])),
+        None => sb.add(KEYS[i], build_a(&c.tls[i])),
+    }
 }
 
 fn c19_strategy() -> impl Strategy<Value = C19Case> {
@@ -804,7 +837,7 @@ fn c19_strategy() -> impl Strategy<Value = C19Case> {
         ],
     );
     (
-        prop::collection::vec(desc::tl_strategy_animator(finite_timing), 3),
+        prop::collection::vec(desc::tl_strategy_animator(finite_timing.clone()), 3),
         0u8..4,
         chain,
         prop::option::weighted(0.4, 1u8..24),
@@ -812,11 +845,23 @@ fn c19_strategy() -> impl Strategy<Value = C19Case> {
         prop::collection::vec(op, 1..=40),
         prop_oneof![2 => Just(0u8), 3 => 0u8..12],
         prop::option::weighted(0.3, 0u8..3),
+        prop::option::weighted(0.3, (0u8..3, desc::tl_strategy_animator(finite_timing.clone()), 0u8..3)),
     )
-        .prop_map(|(tls, initial_key, chain, with_b, start, ops, b_delay, ctor_timeline)| C19Case { tls, initial_key, chain, with_b, b_delay, ctor_timeline, start, ops })
+        .prop_map(|(tls, initial_key, chain, with_b, start, ops, b_delay, ctor_timeline, merged)| {
+            // the second part of a staggered pair: same cycle and a later start, most of the time
+            let merged_key = merged.map(|(k, mut x, mode): (u8, TlDesc, u8)| {
+                let first = &tls[k as usize % 3];
+                if mode > 0 {
+                    x.timing.cycle = first.timing.cycle;
+                    x.timing.delay = first.timing.delay + if mode == 1 { 0.5 } else { 0.125 };
+                }
+                (k, x)
+            });
+            C19Case { tls, initial_key, chain, with_b, b_delay, ctor_timeline, merged_key, start, ops }
+        })
 }
 
-const C19_LABELS: [&str; 18] = ["key_change_mid_flight", "chain_fired", "end_without_chain_entry", "other_animator_ended", "key_set_in_gap_after_end", "same_key_reassigned", "key_without_timeline", "has_chain", "two_component_types", "chain_first_order_consistent", "select_first_order_consistent", "ended_reached", "animator_disabled", "animator_constructed_with_a_timeline", "chain_made_with_reset_after", "hot_swap_under_a_selector", "second_component_selected_by_the_same_key_type", "chain_map_edited_at_run_time"];
+const C19_LABELS: [&str; 19] = ["key_change_mid_flight", "chain_fired", "end_without_chain_entry", "other_animator_ended", "key_set_in_gap_after_end", "same_key_reassigned", "key_without_timeline", "has_chain", "two_component_types", "chain_first_order_consistent", "select_first_order_consistent", "ended_reached", "animator_disabled", "animator_constructed_with_a_timeline", "chain_made_with_reset_after", "hot_swap_under_a_selector", "second_component_selected_by_the_same_key_type", "chain_map_edited_at_run_time", "merged_timeline_selected"];
 
 /// One hypothesis about the (unspecified but fixed) relative order of chain_animations / select_animation.
 struct Hyp {
@@ -842,8 +887,8 @@ fn c19_judge(c: &C19Case, obs: &mut Obs) -> Result<(), String> {
     app.insert_resource(Time::default());
     let start = A::from_vals(&c.start);
     let mut sb = AnimationSelectorBuilder::<K, A>::new().initial_key(KEYS[c.initial_key as usize % 4]);
-    for (i, t) in c.tls.iter().enumerate().take(3) {
-        sb = sb.add(KEYS[i], build_a(t));
+    for i in 0..c.tls.len().min(3) {
+        sb = add_keyed(sb, c, i);
     }
     // sometimes an unrelated entity with an animator that has no timeline exists (and comes first
     // in iteration order): it must not influence the entity under test
@@ -853,7 +898,10 @@ fn c19_judge(c: &C19Case, obs: &mut Obs) -> Result<(), String> {
     let selector = if c.b_delay % 3 == 1 {
         let mut m: bevy::utils::HashMap<K, Box<dyn bevy_mina::prelude::SafeTimeline<Target = A>>> = bevy::utils::HashMap::new();
         for (i, t) in c.tls.iter().enumerate().take(3) {
-            m.insert(KEYS[i], Box::new(build_a(t)));
+            match c.extra_for(i) {
+                Some(x) => m.insert(KEYS[i], Box::new(MergedTimeline::of([build_a(t), build_a(x)]))),
+                None => m.insert(KEYS[i], Box::new(build_a(t))),
+            };
         }
         AnimationSelector::<K, A>::new(m, KEYS[c.initial_key as usize % 4])
     } else {
@@ -866,6 +914,7 @@ fn c19_judge(c: &C19Case, obs: &mut Obs) -> Result<(), String> {
         None => Animator::<A>::new(),
     };
     obs.label_if(13, c.ctor_timeline.is_some());
+    obs.label_if(18, c.merged_key.is_some());
     let mut ec = app.world.spawn((start.clone(), governed, selector));
     if let Some(ch) = &c.chain {
         for (f, t) in ch {
@@ -1012,7 +1061,7 @@ fn c19_judge(c: &C19Case, obs: &mut Obs) -> Result<(), String> {
                     // animator as seen by `animate` in this frame
                     let (tl_now, st_in, pos_in): (Option<TlInForce>, AnimationState, Duration) = match restart {
                         Some(k) => {
-                            let t = if (k as usize) < 3 { Some(TlInForce::new(&c.tls[k as usize], Some(&comp0))) } else { None };
+                            let t = if (k as usize) < 3 { Some(c.in_force(k as usize, &comp0)) } else { None };
                             (t, AnimationState::None, Duration::ZERO)
                         }
                         None => (None, st0, pos0),
@@ -1120,7 +1169,7 @@ fn c19(run: &mut Run) {
         cases,
         c19_judge,
     );
-    for (l, f) in [("key_change_mid_flight", 0.3), ("chain_fired", 0.05), ("end_without_chain_entry", 0.05), ("other_animator_ended", 0.05), ("key_set_in_gap_after_end", 0.02), ("same_key_reassigned", 0.2), ("key_without_timeline", 0.2)] {
+    for (l, f) in [("key_change_mid_flight", 0.3), ("chain_fired", 0.05), ("end_without_chain_entry", 0.05), ("other_animator_ended", 0.05), ("key_set_in_gap_after_end", 0.02), ("same_key_reassigned", 0.2), ("key_without_timeline", 0.2), ("merged_timeline_selected", 0.15)] {
         run.require_label("c19_selector_chain", l, f);
     }
     run.assume("two-entity part: only component type A (no Animator<B>), so chain -> select -> animate is totally ordered and two Apps fed the same frames are deterministic");
